@@ -477,6 +477,7 @@ def run_history(ops_or_gen, length=None, rng=None, style=None, malformed=False, 
         rec["excs"].append(exc); rec["warns"].append(nwarn)
         if ob["broken"]:
             break
+    rec["net"] = H
     return rec
 
 def history_to_gallina(rec):
